@@ -101,8 +101,8 @@ PROPS = {
         "needs_bin": True,
         "quick": cfg(16, 45, timeout_factor=6),
         "thorough": cfg(16, 900, timeout_factor=3),
-        "rule": "pipelines assembled from the public stage functions (producer -> parse_lifecycles_buffered_from_stream -> plugins_process_msgs -> optional buffer_sort_messages -> optional filter_as_streams -> consumer), every edge a sync_channel of capacity 0/1/2/3/16/1024 (uniform or mixed) written through sync_sender_send_delay_if_full; producer bursts/stalls, consumer stalls (us..400 ms), pause hooks before send and before lifecycle outflow; 1/5 with the consumer dropped after 0/1/mid/last messages. Reference = same stages with unbounded channels. Every 8th case runs the real `adlt convert -o` with ADLT_VERIF_CHAN_CAP in {0,1,2,7} against default capacities. Non-trivial = >=20 full-channel waits observed (hook census); distinct = (capacities, stages, pacing classes, drop, hook class, waits bucket).",
-        "floors": {"quick": {"evaluations": 150, "distinct_nontrivial": 40, "full_channel_waits": 10000, "early_consumer_drops": 15, "binary_convert_runs": 10}, "thorough": {"evaluations": 5000, "distinct_nontrivial": 300}},
+        "rule": "pipelines assembled from the public stage functions (producer -> parse_lifecycles_buffered_from_stream -> plugins_process_msgs -> optional buffer_sort_messages -> optional filter_as_streams -> consumer), every edge a sync_channel of capacity 0/1/2/3/16/1024 (uniform or mixed) written through sync_sender_send_delay_if_full; producer bursts/stalls, consumer stalls (us..400 ms), pause hooks before send and before lifecycle outflow; 1/5 with the consumer dropped after 0/1/mid/last messages; half of the pipelines run the real Export plugin (lifecyclesToKeep) in the plugin stage, which forwards every message and looks each new lifecycle id up in the shared table when the message reaches it; 2/3 of the scenarios are chosen by a census guided pre-screen (synchronous detector run that took the merge/merge-flush/confirm-other paths with >= 2 ECUs). Reference = same stages with unbounded channels. Every 8th case runs the real `adlt convert -o` with ADLT_VERIF_CHAN_CAP in {0,1,2,7} against default capacities. Non-trivial = >=20 full-channel waits observed (hook census); distinct = (capacities, stages, pacing classes, drop, hook class, waits bucket).",
+        "floors": {"quick": {"evaluations": 150, "distinct_nontrivial": 40, "full_channel_waits": 10000, "early_consumer_drops": 15, "binary_convert_runs": 10, "pipelines_with_export_plugin": 40, "scenarios_selected_by_census": 30}, "thorough": {"evaluations": 5000, "distinct_nontrivial": 300}},
         "assumptions": ["termination after consumer drop is decided with a generous bound (120 s); the helper's 10 ms sleep per full channel bounds the throughput, so streams are <= 300 messages", "schedule independence is demanded for the unsorted pipeline only; the sorted pipeline must be a permutation with the same table"],
     },
     "C18": {
@@ -141,7 +141,7 @@ PROPS = {
         "level": "exploration",
         "quick": cfg(16, 45, timeout_factor=8),
         "thorough": cfg(16, 900, timeout_factor=3),
-        "rule": "inputs: windows of the repository example files (dlt/asc/txt/log) and generated rich traces (verbose typed arguments, non-verbose FIBEX ids, control requests/responses incl. GET_LOG_INFO status 3-8 with descriptions, GET_SW_VERSION, unregister/connection/timezone, verbose control messages with short arguments, complete file transfers, SOME/IP- and CAN-like network traces, SYS/JOUR texts, Muniic 13-argument messages, all header shapes, reboots) under 1-4 mutations: bit flip, byte set, splice, truncation (also at structural boundaries), insertion, deletion and field-targeted rewrites (len, htyp, noar, msin, timestamp, storage seconds, first payload words, string/raw lengths, status bytes) with values 0/1/7/0xffff/0x7fffffff/0x80000000/u32::MAX/random; serial streams; grammar-based lines for ASC (CAN/CANFD/ErrorFrame/date/BusMapping with out-of-range numbers), logcat (monotonic + threadtime, 19-digit seconds, odd fractions) and generic log (non-ASCII / 70000-char / colliding tags, overflowing dates). Every input runs the WHOLE chain in an isolated worker process: reader for its extension -> header/payload text, argument iteration, to_write -> EacStats -> lifecycle detection -> listing -> time sort -> 9 filters covering every criterion -> plugins (FileTransfer allowSave on/off, NonVerbose, SomeIp, CAN, Muniic, Rewrite, Anonymize); panics are captured per stage, worker death (signal/abort) and stalls are detected by the supervisor and confirmed on the single input, the largest single allocation request is compared with 64 MiB + 1024*|input| unless it equals an input-independent baseline request. Non-trivial = >=1 message reached lifecycle detection and the plugins; distinct = (format, origin, first/last mutation operator, log2 messages).",
+        "rule": "inputs: windows of the repository example files (dlt/asc/txt/log) and generated rich traces (verbose typed arguments, non-verbose FIBEX ids, control requests/responses incl. GET_LOG_INFO status 3-8 with descriptions, GET_SW_VERSION, unregister/connection/timezone, verbose control messages with short arguments, complete file transfers and file transfers with boundary valued sizes/package counts/package numbers, SOME/IP- and CAN-like network traces, segmented SOME/IP transfers (NWST/NWCH/NWEN with chunk counts and sizes from {0,1,2,...,0xfffe,0xffff}, out-of-sequence chunk numbers, malformed ids), SYS/JOUR texts, Muniic 13-argument messages, all header shapes, reboots) under 1-4 mutations: bit flip, byte set, splice, truncation (also at structural boundaries), insertion, deletion and field-targeted rewrites (len, htyp, noar, msin, timestamp, storage seconds, first payload words, string/raw lengths, status bytes) with values 0/1/7/0xffff/0x7fffffff/0x80000000/u32::MAX/random; serial streams; grammar-based lines for ASC (CAN/CANFD/ErrorFrame/date/BusMapping with out-of-range numbers), logcat (monotonic + threadtime, 19-digit seconds, odd fractions) and generic log (non-ASCII / 70000-char / colliding tags, overflowing dates). Every input runs the WHOLE chain in an isolated worker process: reader for its extension -> header/payload text, argument iteration, to_write -> EacStats -> lifecycle detection -> listing -> time sort -> 9 filters covering every criterion -> plugins (FileTransfer allowSave on/off, NonVerbose, SomeIp, CAN, Muniic, Rewrite, Anonymize); panics are captured per stage, worker death (signal/abort) and stalls are detected by the supervisor and confirmed on the single input, the largest single allocation request is compared with 64 MiB + 1024*|input| unless it equals an input-independent baseline request. Non-trivial = >=1 message reached lifecycle detection and the plugins; distinct = (format, origin, first/last mutation operator, log2 messages).",
         "floors": {"quick": {"evaluations": 30000, "distinct_nontrivial": 1000, "format_asc": 4000, "format_txt": 4000, "format_log": 2500, "format_dlt": 15000, "inputs_reaching_lifecycle_and_plugins": 25000}, "thorough": {"evaluations": 2000000, "distinct_nontrivial": 3000}},
         "assumptions": ["builds use overflow-checks and debug-assertions, so an arithmetic overflow is observable as a panic", "a worker killed without a reproducible single-input failure is inconclusive, never a violation", "BLF input and the libarchive feature are outside the built configuration"],
     },
